@@ -2,6 +2,7 @@ package stickycookie
 
 import (
 	"net/url"
+	"strings"
 )
 
 // RawValue is a no-op that returns the raw strings as-is.
@@ -9,7 +10,9 @@ type RawValue struct{}
 
 // Get returns the raw value.
 func (v *RawValue) Get(raw *url.URL) string {
-	return raw.String()
+	// ';' is legal in a URL but is dropped from a cookie value when the cookie is written;
+	// percent-encoded it survives, and FindURL compares the decoded path.
+	return strings.ReplaceAll(raw.String(), ";", "%3B")
 }
 
 // FindURL gets url from array that match the value.
